@@ -70,13 +70,36 @@ def setup():
     return 0
 
 
+class _CaseTimeout(BaseException):
+    pass
+
+
+def _on_alarm(*_a):
+    raise _CaseTimeout()
+
+
 def _impl_safe(args):
+    """Run the real code on one case.  A case that does not return within CASE_TIMEOUT seconds (default 120; a module that
+    manages its own alarm sets CASE_TIMEOUT = None) is recorded as a hang, not waited for."""
+    import signal
     mod_name, case = args
     mod = importlib.import_module(mod_name)
+    limit = getattr(mod, 'CASE_TIMEOUT', 120)
+    old = None
     try:
+        if limit:
+            old = signal.signal(signal.SIGALRM, _on_alarm)
+            signal.setitimer(signal.ITIMER_REAL, limit)
         return mod.impl(case)
+    except _CaseTimeout:
+        return {'harness_timeout': limit}
     except BaseException as e:  # the harness itself failed on this case
         return {'harness_error': '%s: %s' % (type(e).__name__, e), 'tb': traceback.format_exc()[-1500:]}
+    finally:
+        if limit:
+            signal.setitimer(signal.ITIMER_REAL, 0)
+            if old is not None:
+                signal.signal(signal.SIGALRM, old)
 
 
 def run_impl(mod, cases):
@@ -251,6 +274,14 @@ def evaluate(mod, cases, result, known, proof_problems):
     failures = []
     harness_errors = []
     for case, io, rep in zip(cases, impl_out, replies):
+        if isinstance(io, dict) and 'harness_timeout' in io:
+            # the real code did not return: a failing input for a property that promises termination, a tool failure otherwise
+            clause = getattr(mod, 'HANG_CLAUSE', None)
+            if clause:
+                failures.append((case, io, None, ['%s: no result within %s s on this input (hang / unbounded computation)' % (clause, io['harness_timeout'])]))
+            else:
+                harness_errors.append((case, io))
+            continue
         if isinstance(io, dict) and 'harness_error' in io:
             harness_errors.append((case, io))
             continue
@@ -321,10 +352,19 @@ def verdict(mod, tier, seed, cases, result, replay_mode=False):
         # a concrete failing input exists: shrink it with the oracle as the test
         case, io, mo, fails = new[0]
         clause0 = fails[0].split(':')[0]
+        if isinstance(io, dict) and 'harness_timeout' in io:
+            # a hang: shrink with "still does not return" as the test (few attempts: each one costs the time limit)
+            small = shrink(mod, case, lambda c: 'harness_timeout' in _impl_safe((mod.__name__, c)), budget=25)
+            path = write_replay(mod.ID, {'property': mod.ID, 'kind': 'failing-input', 'clauses': fails, 'case': small, 'original_case': case,
+                                         'impl': io, 'model': None, 'spec': None, 'proof_problems': proof_problems, 'n_failing_cases': len(new)})
+            lines.append('VIOLATION property=%s replay=%s' % (mod.ID, path))
+            return 1, lines
         sess = leanio.DriverSession()
         try:
             def still_bad(c):
-                o = mod.impl(c)
+                o = _impl_safe((mod.__name__, c))
+                if 'harness_timeout' in o or 'harness_error' in o:
+                    return False
                 rep = sess.ask(mod.to_request(c))
                 if 'driver_error' in rep:
                     return False
@@ -344,11 +384,9 @@ def verdict(mod, tier, seed, cases, result, replay_mode=False):
         lines.append('VIOLATION property=%s replay=%s' % (mod.ID, path))
         rc = 1
     else:
-        unexplained = [d for d in disagreements if not d[3]]
-        # disagreements whose oracle failures were all known findings are explained by them
-        explained_cases = {canon(c) for c, _io, _f in known_hits.values()}
-        unexplained += [d for d in disagreements if d[3] and canon(d[0]) not in explained_cases and
-                        not any(canon(d[0]) == canon(c) for c, _i, _m, _f in failures)]
+        # no new oracle failure: every disagreement between model and implementation is unexplained -- also one on an input
+        # that hits a recorded finding (the model follows the code there too)
+        unexplained = list(disagreements)
         if unexplained or proof_problems:
             payload = {'property': mod.ID, 'kind': 'no-failing-input-found', 'proof_problems': proof_problems,
                        'broken': proof_problems + (['correspondence op=%s: implementation and model differ' % unexplained[0][0].get('op')] if unexplained else []),
@@ -453,6 +491,10 @@ def run_check(pid, tier, seed, replay=None):
         rc, lines = verdict(mod, tier, seed, cases, result, replay_mode=bool(replay))
     except ToolFailure as e:
         print('TOOL-FAILURE: %s' % e)
+        result.setdefault('violations', 0)
+        rc = 2
+    except Exception as e:   # a failure of the machinery itself (generator, harness) is never a verdict about the property
+        print('TOOL-FAILURE: %s: %s\n%s' % (type(e).__name__, e, traceback.format_exc()[-2000:]))
         result.setdefault('violations', 0)
         rc = 2
     finally:
